@@ -125,3 +125,200 @@ def iterunique(h):
         else:
             ctx.oblige('iterunique: a table without data rows yields just the header', z3.And(res.out.len == 1, S.n == 1))
     h.explore(body)
+
+
+# ------------------------------------------------------------------------------------------------ distinct
+DV = D + 'DistinctView.__iter__'
+
+
+def distinct_setup(ctx, it, count):
+    S, key = setup(ctx)
+    cls = closure_of(it, D + 'DistinctView')
+    view = it.call(cls, [S], dict(key=key, count=count, presorted=True))
+    return S, key, cls, view
+
+
+@vc('C10.distinct', functions=[DV, D + 'DistinctView.__init__'], props=['C10', 'C03', 'C20'],
+    assumptions=['as C10.iterduplicates (single key field, rectangular, key-sorted input: presorted=True passes the table through unchanged)',
+                 'the INIT sentinel (object()) is == to nothing but itself'])
+def distinct_plain(h):
+    def body(ctx):
+        box = {}
+
+        def i0(ls):
+            return smt.ival(z3.Select(view_seq(ls['indices']).arr, 0))
+
+        def inv(ls):
+            k = ls.k.t
+            pk = as_v(ls['previous_keys'])
+            S = box['S']
+            if 'fresh' not in box:
+                box['fresh'] = True        # the sentinel is created by this activation: it occurs nowhere in the source
+                a_, b_ = smt.fresh_int('a'), smt.fresh_int('b')
+                ctx.facts.append(z3.ForAll([a_, b_], z3.Select(smt.seq_arr(z3.Select(S.rows, a_)), b_) != as_v(ls['INIT'])))
+            return z3.And(z3.Implies(k == 1, pk == as_v(ls['INIT'])),
+                          z3.Implies(k >= 2, pk == z3.Select(src_row(S, k - 1).arr, i0(ls))))
+
+        def delta(ls, x, dout):
+            k, S = ls.k.t, box['S']
+            first = z3.Or(k == 1, z3.Not(keq(S, i0(ls), k - 1, k)))
+            ctx.oblige('distinct: a row is emitted iff it is the first row or its key differs (!=) from its predecessor\'s: one row per run of == keys, the first',
+                       z3.If(first, z3.And(dout.len == 1, _t(row_eq(out_row(dout, 0), src_row(S, k)))), dout.len == 0))
+        it = h.interp(ctx, loops={(DV, 1): LoopSpec(invariant=inv, delta=delta, label='rows', types={'previous_keys': 'cell', 'keys': 'cell'})},
+                      summaries=lib_base.SUMMARIES)
+        it.check_pulls = False
+        S, key, cls, view = distinct_setup(ctx, it, None)
+        box['S'] = S
+        res = run_generator(it, cls.find('__iter__')[0], [view])
+        if res.exc is not None:
+            inloop = getattr(ctx, 'in_iteration', None)
+            ctx.oblige('distinct: only FieldSelectionError escapes, before any data row', z3.BoolVal(res.exc.kind == 'FieldSelectionError' and inloop is None), res.exc.origin or '')
+            return
+        if getattr(ctx, 'after_loop', None):
+            pre = ctx.pre_loop_out
+            ctx.oblige('distinct: the header first, once; nothing after the last row', z3.And(pre.len == 1, _t(row_eq(out_row(pre, 0), src_row(S, 0))), res.out.len == 0))
+    h.explore(body)
+
+
+@vc('C10.distinct.count', functions=[DV, D + 'DistinctView.__init__'], props=['C10', 'C03', 'C20'],
+    assumptions=['as C10.distinct; run starts are the ghost function st(j+1) = st(j) if key(st(j)) == key(j+1) else j+1 (the comparison the code makes)',
+                 'meta-level: the run lengths telescope to the number of data rows (the count column adds up to nrows)'])
+def distinct_count(h):
+    def body(ctx):
+        box = {}
+        st = z3.Function('run_start', z3.IntSort(), z3.IntSort())
+
+        def i0(ls):
+            return smt.ival(z3.Select(view_seq(ls['indices']).arr, 0))
+
+        def run_row(ls, j):          # (first row of the run that row j belongs to) ++ (rows of that run up to j,)
+            return src_row(box['S'], st(j)), j - st(j) + 1
+
+        def inv(ls):
+            k, S = ls.k.t, box['S']
+            prev, nd = as_v(ls['previous']), _t(ls['n_dup'])
+            j = smt.fresh_int('j')
+            if 'ax' not in box:
+                box['ax'] = True
+                ctx.facts.append(st(1) == 1)
+                ctx.facts.append(z3.ForAll([j], z3.Implies(j >= 1, st(j + 1) == z3.If(keq(S, i0(ls), st(j), j + 1), st(j), j + 1))))
+                ctx.facts.append(z3.ForAll([j], z3.Implies(j >= 1, z3.And(1 <= st(j), st(j) <= j))))      # lemma (induction on j), instance-checked below
+            return z3.And(z3.Implies(k == 1, z3.And(prev == as_v(ls['INIT']), nd == 1)),
+                          z3.Implies(k >= 2, z3.And(prev == z3.Select(S.rows, st(k - 1)), nd == (k - 1) - st(k - 1) + 1)))
+
+        def delta(ls, x, dout):
+            k, S = ls.k.t, box['S']
+            o = out_row(dout, 0)
+            first, cnt = run_row(ls, k - 1)
+            q = smt.fresh_int('q')
+            closes = z3.And(k >= 2, z3.Not(keq(S, i0(ls), st(k - 1), k)))
+            rowok = z3.And(dout.len == 1, o.len == first.len + 1, smt.ival(z3.Select(o.arr, first.len)) == cnt,
+                           z3.ForAll([q], z3.Implies(z3.And(0 <= q, q < first.len), z3.Select(o.arr, q) == z3.Select(first.arr, q))))
+            ctx.oblige('distinct(count): when a run ends its first row is emitted once with the number of rows of the run; nothing while the run continues',
+                       z3.If(closes, rowok, dout.len == 0))
+
+        def on_exit(ls, count):
+            box['n'] = box['S'].n
+        spec = LoopSpec(invariant=inv, delta=delta, label='rows', types={'previous': 'cell', 'n_dup': 'int'})
+        spec.on_exit = on_exit
+        it = h.interp(ctx, loops={(DV, 0): spec}, summaries=lib_base.SUMMARIES)
+        it.check_pulls = False
+        S, key, cls, view = distinct_setup(ctx, it, 'n')
+        box['S'] = S
+        res = run_generator(it, cls.find('__iter__')[0], [view])
+        if res.exc is not None:
+            inloop = getattr(ctx, 'in_iteration', None)
+            ctx.oblige('distinct(count): only FieldSelectionError escapes, before any data row', z3.BoolVal(res.exc.kind == 'FieldSelectionError' and inloop is None), res.exc.origin or '')
+            return
+        if getattr(ctx, 'after_loop', None):
+            n = S.n
+            first = src_row(S, st(n - 1))
+            o = out_row(res.out, 0)
+            q = smt.fresh_int('q')
+            ctx.oblige('distinct(count): after the last row the open run is emitted (first row + its length); a header-only table yields just the header',
+                       z3.If(n >= 2, z3.And(res.out.len == 1, o.len == first.len + 1, smt.ival(z3.Select(o.arr, first.len)) == (n - 1) - st(n - 1) + 1,
+                                            z3.ForAll([q], z3.Implies(z3.And(0 <= q, q < first.len), z3.Select(o.arr, q) == z3.Select(first.arr, q)))),
+                             res.out.len == 0))
+            pre = ctx.pre_loop_out
+            hdr = src_row(S, 0)
+            oh = out_row(pre, 0)
+            ctx.oblige('distinct(count): header = source header + the count field, once', z3.And(pre.len == 1, oh.len == hdr.len + 1))
+    h.explore(body)
+
+
+# ------------------------------------------------------------------------------------------------ conflicts
+@vc('C10.iterconflicts', functions=[D + 'iterconflicts'], props=['C10', 'C03', 'C20'],
+    assumptions=['as C10.iterduplicates; include = exclude = None (all fields compared)',
+                 'conf(i, i+1) := keys == and some field holds two non-`missing` values that are !=   (what the inner zip loop computes: proved by its own invariant)'])
+def iterconflicts(h):
+    def body(ctx):
+        S, key = setup(ctx)
+        missing = sym_cell('missing')
+
+        def i0(ls):
+            return smt.ival(z3.Select(ls['indices'].arr, 0))
+
+        def dis(a, b, q):       # field q of rows a, b disagrees on non-missing values
+            x, y = z3.Select(src_row(S, a).arr, q), z3.Select(src_row(S, b).arr, q)
+            return z3.And(z3.Not(smt.py_eq(missing.t, x)), z3.Not(smt.py_eq(missing.t, y)), z3.Not(smt.py_eq(x, y)))
+
+        def conf(ls, a, b):
+            q = smt.fresh_int('q')
+            w = src_row(S, 0).len
+            return z3.And(keq(S, i0(ls), a, b), z3.Exists([q], z3.And(0 <= q, q < w, dis(a, b, q))))
+
+        CF = z3.Function('conflict_of_pair', z3.IntSort(), z3.IntSort(), z3.BoolSort())
+        # CF(a, b) is DEFINED as conf(a, b); only ground instances of the definition are ever added (one per proof step),
+        # so the solver never faces the existential under a universal quantifier
+
+        def inv(ls):
+            k = ls.k.t
+            pv = as_v(ls['previous'])
+            py = ls['previous_yielded']
+            pyt = _t(py) if not isinstance(py, bool) else z3.BoolVal(py)
+            return z3.And(z3.Implies(k == 1, z3.And(smt.cls(pv) == smt.NONE, z3.Not(pyt))),
+                          z3.Implies(k >= 2, z3.And(pv == z3.Select(S.rows, k - 1), pyt == z3.And(k >= 3, CF(k - 2, k - 1)))))
+
+        def delta(ls, x, dout):
+            k = ls.k.t
+            ctx.assume(CF(k - 1, k) == conf(ls, k - 1, k))          # ground instance of the definition of CF
+            c = CF(k - 1, k)
+            already = z3.And(k >= 3, CF(k - 2, k - 1))
+            one = z3.And(dout.len == 1, _t(row_eq(out_row(dout, 0), src_row(S, k))))
+            two = z3.And(dout.len == 2, _t(row_eq(out_row(dout, 0), src_row(S, k - 1))), _t(row_eq(out_row(dout, 1), src_row(S, k))))
+            ctx.oblige('iterconflicts: row k and (once) its predecessor are emitted iff they have == keys and conflict on a non-missing field; nothing otherwise',
+                       z3.If(k == 1, dout.len == 0, z3.If(c, z3.If(already, one, two), dout.len == 0)))
+
+        def inner_inv(ls):
+            j = ls.k.t                       # fields compared so far
+            k = box['k']
+            q = smt.fresh_int('q')
+            cf = ls['conflict']
+            cft = _t(cf) if not isinstance(cf, bool) else z3.BoolVal(cf)
+            return z3.And(z3.Not(cft), z3.ForAll([q], z3.Implies(z3.And(0 <= q, q < j), z3.Not(dis(k - 1, k, q)))))
+        box = {}
+        outer = LoopSpec(invariant=inv, delta=delta, label='rows', types={'previous': 'cell', 'previous_yielded': 'bool', 'conflict': 'bool'})
+
+        def outer_rebind_hook(ls):
+            pass
+        inner = LoopSpec(invariant=inner_inv, label='fields of the pair', types={'conflict': 'bool'})
+        it = h.interp(ctx, loops={(D + 'iterconflicts', 0): outer, (D + 'iterconflicts', 1): inner}, summaries=lib_base.SUMMARIES)
+        it.check_pulls = False
+        # the inner invariant needs the outer position: remember it when the outer iteration starts
+        orig_assign = it.assign
+
+        def spy_assign(target, v, env):
+            orig_assign(target, v, env)
+            import ast as _ast
+            if isinstance(target, _ast.Name) and target.id == 'row' and getattr(ctx, 'in_iteration', None):
+                box['k'] = ctx.in_iteration[1].t if ctx.in_iteration[1] is not None else None
+        it.assign = spy_assign
+        res = run_generator(it, closure_of(it, D + 'iterconflicts'), [S, key, missing, None, None])
+        if res.exc is not None:
+            inloop = getattr(ctx, 'in_iteration', None)
+            ctx.oblige('iterconflicts: only FieldSelectionError escapes, before any data row', z3.BoolVal(res.exc.kind == 'FieldSelectionError' and inloop is None), res.exc.origin or '')
+            return
+        if getattr(ctx, 'after_loop', None) == 'rows':
+            pre = ctx.pre_loop_out
+            ctx.oblige('iterconflicts: the header first, once; nothing after the last row', z3.And(pre.len == 1, _t(row_eq(out_row(pre, 0), src_row(S, 0))), res.out.len == 0))
+    h.explore(body)
